@@ -302,11 +302,121 @@ def banner(ctx, report):
     if seq != want:
         report.add('C07.R6', f.construct + '@grammar', 'banner is composed as %s, RFC 4253 4.2 says %s' % (seq, want))
     p = c.methods['_parse']
+    if banner_tabulation(ctx, report, c, p):
+        return
     src = ast.unparse(p.node)
-    if '> 255' not in src or 'TooMuchData' not in src:
+    from ..linform import guard_deficit, single_defs
+    limited = False
+    for n in ast.walk(p.node):
+        # ``<length> > 255`` in any spelling, in front of a TooMuchData
+        if isinstance(n, ast.If) and any(isinstance(x, ast.Raise) and x.exc is not None and 'TooMuchData' in ast.unparse(x.exc) for x in n.body):
+            gd = guard_deficit(n.test, {}, single_defs(p.node))
+            # guard_deficit reads ``A < B`` as "B - A is missing": for ``length > 255`` that is length - 255, strictly positive
+            if gd is not None and gd[1] and gd[0].const == -255 and len(gd[0].terms) == 1 and list(gd[0].terms.values()) == [1]:
+                limited = True
+    if not limited:
         report.add('C07.R6', p.construct + '@limit', 'the 255 byte limit of RFC 4253 4.2 is not enforced')
     if "!= 'SSH'" not in src:
         report.add('C07.R6', p.construct + '@prefix', 'the identification string is not required to start with SSH')
+
+
+def banner_tabulation(ctx, report, c, p):
+    """SshProtocolMessage._parse evaluated (sa.miniexec over the ParserText model of sa/textmodel.py; the protocol version
+    and software version classes replaced by models that read ``digits.digits`` resp. take the whole token) on identification
+    strings with and without comment, with CR LF and with a bare LF, followed by further bytes, with a wrong or lower case
+    protocol name, and of exactly 255 and 256 bytes: fields as RFC 4253 4.2 splits them, the reported length ends after the
+    line feed, ``SSH`` is required, 255 bytes are the limit.  Returns False when the function is not evaluable"""
+    from ..miniexec import Evaluator, Native, Raised, Unsupported, class_call_hook, exception_values
+    from ..textmodel import InvalidValue, TextParser
+
+    class BannerParser(TextParser):
+        def parse_parsable(self, name, cls_, item_size=None):
+            kind = getattr(cls_, 'kind', None)
+            rest = self.data[self.pos:]
+            if kind == 'version':
+                i = 0
+                while i < len(rest) and (rest[i:i + 1].isdigit() or rest[i:i + 1] == b'.'):
+                    i += 1
+                parts = rest[:i].split(b'.')
+                if len(parts) != 2 or not all(x.isdigit() for x in parts):
+                    raise InvalidValue(name)
+                self.values[name] = ('version', int(parts[0]), int(parts[1]))
+                self.pos += i
+            elif kind == 'software-parsed':
+                raise InvalidValue(name)            # no vendor class knows the token: the unparsed class takes it
+            elif kind == 'software':
+                self.values[name] = ('software', rest.decode('ascii'))
+                self.pos = len(self.data)
+            else:
+                raise Unsupported('parse_parsable of %r' % (cls_,))
+
+    class Kind(Native):
+        def __init__(self, kind):
+            self.kind = kind
+    made = {}
+    exc = exception_values('InvalidValue', 'TooMuchData', 'NotEnoughData', 'InvalidType')
+
+    def extra(n, ev):
+        d = ast.unparse(n.func)
+        if d == 'ParserText':
+            return BannerParser(ev.ev(n.args[0]))
+        if d in ('SshProtocolMessage', 'cls'):
+            args = [ev.ev(a) for a in n.args]
+            kw = {k.arg: ev.ev(k.value) for k in n.keywords if k.arg}
+            made['object'] = (args, kw)
+            return ('message',)
+        return exc(n, ev)
+
+    def names(name):
+        return {'SshProtocolVersion': Kind('version'), 'SshSoftwareVersionParsedVariant': Kind('software-parsed'),
+                'SshSoftwareVersionUnparsed': Kind('software'), 'cls': 'cls'}.get(name) or (_ for _ in ()).throw(Unsupported('free name %s' % name))
+    hook = class_call_hook(c, extra, ctx.model)
+    fill = 'x' * (255 - len('SSH-2.0-\r\n'))
+    cases = [
+        ('SSH-2.0-OpenSSH_8.9 some comment here\r\n', '', ((2, 0), 'OpenSSH_8.9', 'some comment here')),
+        ('SSH-2.0-OpenSSH_8.9\r\n', '', ((2, 0), 'OpenSSH_8.9', None)),
+        ('SSH-1.99-srv\n', '', ((1, 99), 'srv', None)),
+        ('SSH-2.0-srv two words\r\n', '\x00\x00\x01\x0c', ((2, 0), 'srv', 'two words')),
+        ('SSX-2.0-srv\r\n', '', 'InvalidValue'),
+        ('ssh-2.0-srv\r\n', '', 'InvalidValue'),
+        ('SSH-2.0-%s\r\n' % fill, '', ((2, 0), fill, None)),
+        ('SSH-2.0-%sy\r\n' % fill, '', 'TooMuchData'),
+    ]
+    problems = {}
+    try:
+        for banner, tail, want in cases:
+            report.count('C07.R6')
+            made.clear()
+            data = (banner + tail).encode('latin-1')
+            try:
+                got = Evaluator({'cls': 'cls', 'parsable': data}, hook, names).function(p.node)
+                raised = None
+            except Raised as e:
+                got, raised = None, e.what.split('(')[0].split('.')[-1]
+            what = banner if len(banner) < 60 else '%d byte identification string' % len(banner)
+            if isinstance(want, str):
+                if raised != want:
+                    key = '@limit' if want == 'TooMuchData' else '@prefix'
+                    problems.setdefault(key, ('the 255 byte limit of RFC 4253 4.2 is not enforced (a %d byte string gives %s)' % (len(banner), raised or 'a message'))
+                                        if want == 'TooMuchData' else 'the identification string is not required to start with SSH (%r gives %s)' % (banner, raised or 'a message'))
+                continue
+            if raised is not None:
+                problems.setdefault('@grammar', '%r is refused with %s' % (what, raised))
+                continue
+            args, kw = made.get('object', ((), {}))
+            fields = list(args) + [kw.get(k) for k in ('protocol_version', 'software_version', 'comment')[len(args):]]
+            flat = (fields[0][1:] if isinstance(fields[0], tuple) else fields[0], fields[1][1] if isinstance(fields[1], tuple) else fields[1], fields[2])
+            if flat != want:
+                problems.setdefault('@grammar', '%r is split into %r, RFC 4253 4.2 gives %r' % (what, flat, want))
+            elif not (isinstance(got, tuple) and got[1] == len(banner)):
+                problems.setdefault('@length', '%r followed by %d other bytes is reported as %r bytes long, the line ends after %d' % (
+                    what, len(tail), got[1] if isinstance(got, tuple) else got, len(banner)))
+    except Unsupported as e:
+        report.undecided.append('C07.R6: SshProtocolMessage._parse left the subset the tabulation understands (%s); decided on its syntax' % e)
+        return False
+    for k, v in problems.items():
+        report.add('C07.R6', p.construct + k, v)
+    return True
 
 
 # ---- R7: software version strings -------------------------------------------------------------------------------------
